@@ -640,8 +640,8 @@ func init() {
 		Gen:       func(seed uint64, tier string, idx int) *Scenario { return genC10(mixSeed(seed, uint64(idx))) },
 		Run:       runC10,
 		QuickRuns: 420, ThoroughS: 1500,
-		Rule: "one run = one document (generated mini specification with 0..4 rule-breaking edits, or a small repository fixture) validated 2..6 times: under different seeded map iteration orders (= Go's per-process randomisation, made replayable), " +
-			"from JSON or YAML-converted bytes, with continue-on-errors false/true set per validator or through the package-level setter, after other validations and after a reset of all process-wide state; " +
+		Rule: "one run = one document (generated mini specification with 0..8 rule-breaking edits out of 41 kinds, or a small repository fixture) validated 2..8 times - the same loaded document object or freshly loaded bytes, one Swagger meta-schema object for the run or each document's own - under different seeded map iteration orders (= Go's per-process randomisation, made replayable), " +
+			"from JSON, member-reordered JSON or YAML-converted bytes, with continue-on-errors false/true set per validator or through the package-level setter, after other validations (other documents included) and after a reset of all process-wide state, then once more in a fresh OS process; a quarter of the generated documents come with a twin carrying 1..3 extra warning-only conditions, validated under both settings; " +
 			"non-trivial = at least two whole-spec validations; distinct = distinct (document, option/serialisation sequence)",
 		Real: commonReal, Stub: commonStub,
 		Assume: []string{
